@@ -558,6 +558,122 @@ theorem insertBreak_activities (v : Veh) (moved : Option (Nat × TW)) (rtw : TW)
     rw [insertAt_countP]
     simp [breakActivity]
 
+/-! ## the commute-aware writer agrees with the plain writer on routes without commute -/
+
+def CStop.plain (s : CStop) : WStop :=
+  { loc := s.loc, arrival := s.arrival, departure := s.departure, distance := s.distance, load := s.load,
+    activities := s.activities.map (·.act) }
+
+def CSt.plain (c : CSt) : St :=
+  { done := c.done.map CStop.plain, cur := c.cur.plain, lastLoc := c.lastLoc, lastDep := c.lastDep, load := c.load, stat := c.stat.s }
+
+def plainAct (a : RAct) : CAct := { a := a, commute := none, legsFrom := [] }
+
+theorem stepActC_plain (v : Veh) (pk : Int) (c : CSt) (a : RAct) :
+    (stepActC v pk c (plainAct a)).plain = stepAct v c.plain a := by
+  by_cases hn : c.lastLoc = a.loc
+  · simp [stepActC, stepAct, CSt.plain, CStop.plain, plainAct, cinfoZero, hn]
+    exact ⟨rfl, rfl⟩
+  · simp [stepActC, stepAct, CSt.plain, CStop.plain, plainAct, cinfoZero, hn]
+    exact ⟨rfl, rfl⟩
+
+theorem foldl_stepActC_plain (v : Veh) (pk : Int) (l : List RAct) (c : CSt) :
+    ((l.map plainAct).foldl (stepActC v pk) c).plain = l.foldl (stepAct v) c.plain := by
+  induction l generalizing c with
+  | nil => rfl
+  | cons a r ih => simp only [List.map_cons, List.foldl_cons, ih, stepActC_plain]
+
+theorem initStC_plain (start : RAct) (n : Option RAct) (seg : List RAct) : (initStC start n seg).plain = initSt start n seg := by
+  simp [initStC, CSt.plain, CStop.plain, initSt, WStat.zero]
+
+theorem tidyC_plain (s : CStop) : (tidyC s).plain = tidyStop s.plain := by
+  obtain ⟨loc, arr, dep, dist, load, pk, acts⟩ := s
+  cases acts with
+  | nil => rfl
+  | cons a r =>
+    cases r with
+    | nil => simp [tidyC, tidyStop, CStop.plain]
+    | cons b r' => rfl
+
+theorem cutGo_map_plain (l cur : List RAct) :
+    cutGo (fun c => isReload c.a) (l.map plainAct) (cur.map plainAct) = (cutGo isReload l cur).map (·.map plainAct) := by
+  induction l generalizing cur with
+  | nil => simp [cutGo]
+  | cons a r ih =>
+    simp only [List.map_cons, cutGo]
+    have e : (isReload (plainAct a).a && !(cur.map plainAct).isEmpty) = (isReload a && !cur.isEmpty) := by
+      simp [plainAct]
+    rw [e]
+    split
+    · have := ih [a]
+      simp only [List.map_cons, List.map_nil] at this
+      simp [this]
+    · have := ih (a :: cur)
+      simp only [List.map_cons] at this
+      simp [this]
+
+theorem map_a_plain (l : List RAct) : (l.map plainAct).map (·.a) = l := by
+  simp [List.map_map, Function.comp_def, plainAct]
+
+theorem plain_subLoad (c : CSt) (s : St) (h : c.plain = s) (x : Load) :
+    ({ c with load := lsub c.load x } : CSt).plain = { s with load := lsub s.load x } := by
+  subst h; rfl
+
+theorem plain_setLoad (c : CSt) (l : Load) : ({ c with load := l } : CSt).plain = { c.plain with load := l } := rfl
+
+theorem stepSegC_plain (v : Veh) (pk : Int) (c : CSt) (seg : List RAct) :
+    (stepSegC v pk c (seg.map plainAct)).plain = stepSeg v c.plain seg := by
+  unfold stepSegC stepSeg
+  rw [map_a_plain]
+  have h := foldl_stepActC_plain v pk seg { c with load := sumD0 seg c.load }
+  rw [plain_setLoad] at h
+  exact plain_subLoad _ _ h _
+
+theorem foldl_stepSegC_plain (v : Veh) (pk : Int) (later : List (List RAct)) (c : CSt) :
+    ((later.map (·.map plainAct)).foldl (stepSegC v pk) c).plain = later.foldl (stepSeg v) c.plain := by
+  induction later generalizing c with
+  | nil => rfl
+  | cons seg r ih => simp only [List.map_cons, List.foldl_cons, ih, stepSegC_plain]
+
+/-- **the commute-aware model is a conservative extension**: on a route without commute it renders the tour of the plain
+    writer model (for which `writeTour_meets_spec` is proved) -/
+theorem writeTourC_plain (v : Veh) (pk : Int) (acts : List RAct) :
+    (writeTourC v pk (acts.map plainAct)).map (fun r => ({ stops := r.1.map CStop.plain, stat := r.2.s } : WTour)) = writeTour v acts := by
+  cases acts with
+  | nil => rfl
+  | cons start rest =>
+    have hc : cutBefore (fun c => isReload c.a) ((start :: rest).map plainAct)
+        = (cutBefore isReload (start :: rest)).map (·.map plainAct) := by
+      have := cutGo_map_plain (start :: rest) []
+      simpa [cutBefore] using this
+    simp only [List.map_cons] at hc
+    simp only [writeTourC, writeTour, foldRoute, List.map_cons, hc]
+    cases hcut : cutBefore isReload (start :: rest) with
+    | nil => rfl
+    | cons first later =>
+      simp only [List.map_cons, Option.map_some, Option.some.injEq]
+      have e0 : (first.map plainAct).drop 1 = (first.drop 1).map plainAct := by simp [List.map_drop]
+      have e1 : (rest.map plainAct).head?.map (·.a) = rest.head? := by cases rest <;> simp [plainAct]
+      rw [e0, e1, map_a_plain, map_a_plain]
+      have s1 := foldl_stepActC_plain v pk (first.drop 1) (initStC start rest.head? (first.drop 1))
+      rw [initStC_plain] at s1
+      have s2 := foldl_stepSegC_plain v pk later
+        { (List.foldl (stepActC v pk) (initStC start rest.head? (first.drop 1)) ((first.drop 1).map plainAct)) with
+          load := lsub (List.foldl (stepActC v pk) (initStC start rest.head? (first.drop 1)) ((first.drop 1).map plainAct)).load (sumP0 first) }
+      have s3 := plain_subLoad _ _ s1 (sumP0 first)
+      rw [s3] at s2
+      have hs : ∀ c : CSt, c.stops.map (fun x => (tidyC x).plain) = (c.plain.stops).map tidyStop := by
+        intro c
+        simp [CSt.stops, St.stops, CSt.plain, tidyC_plain, List.map_map, Function.comp_def]
+      simp only [List.map_map, Function.comp_def]
+      rw [WTour.mk.injEq]
+      constructor
+      · rw [hs]
+        exact congrArg (fun st : St => List.map tidyStop st.stops) s2
+      · have h := congrArg St.stat s2
+        simp only [CSt.plain] at h
+        exact congrArg (fun st : WStat => ({ st with cost := st.cost + v.fixed } : WStat)) h
+
 /-! ## non-vacuity: a concrete route with a reload, a break, waiting and a job at the depot -/
 
 private def r0 : RAct := { loc := 0, arr := 0, dep := 10, tws := 0, dur := 0, placeIdx := 0, type := none, jobId := none, rootId := none,
